@@ -84,6 +84,25 @@ Definition in_pair_a (b a : R) : R := 2.
 Definition sc_pair_b (a b : R) : R := - (b - a).
 Definition in_pair_b (a b : R) : R := 1.
 
+(* Liesel model with a transformed parameter whose bijector depends on ANOTHER sampled parameter:
+   theta ~ Gamma(4, 1), theta = exp t;  x | theta ~ Uniform(0, theta), x = theta * sigmoid u (default event
+   space bijector of Uniform(0, theta));  y ~ N(x, sd).  Density of the TRANSFORMED model in (t, u), Jacobians
+   included:  Gamma: 3 t - exp t - ln 6, |d theta/dt|: + t, Uniform: - t, |dx/du|: t + ln sigm u + ln (1 - sigm u) *)
+Definition sigm (u : R) : R := 1 / (1 + exp (- u)).
+Definition lp_hier (yv sd t u : R) : R :=
+  4 * t - exp t - ln 6 - ln (1 + exp (- u)) - ln (1 + exp u) + gauss_logpdf yv (exp t * sigm u) sd.
+Definition sc_hier_t (yv sd u t : R) : R := 4 - exp t + (yv - exp t * sigm u) * (exp t * sigm u) / sd ^ 2.
+Definition in_hier_t (yv sd u t : R) : R := exp t + (exp t * sigm u) * (2 * (exp t * sigm u) - yv) / sd ^ 2.
+Definition sc_hier_u (yv sd t u : R) : R :=
+  1 - 2 * sigm u + (yv - exp t * sigm u) * exp t * (sigm u * (1 - sigm u)) / sd ^ 2.
+Definition in_hier_u (yv sd t u : R) : R :=
+  2 * (sigm u * (1 - sigm u))
+  + ((exp t * (sigm u * (1 - sigm u))) ^ 2
+     - (yv - exp t * sigm u) * exp t * (sigm u * (1 - sigm u)) * (1 - 2 * sigm u)) / sd ^ 2.
+
+(* distreg.py tau2_gibbs_kernel: tau2 ~ InverseGamma(a, b); its log-density up to the constant *)
+Definition ig_logkernel (a b t : R) : R := - (a + 1) * ln t - b / t.
+
 (* rw.py / iwls.py: the proposal as a location-scale transform of the standard normal draw z *)
 Definition rw_proposal (s x z : R) : R := x + s * z.
 Definition iwls_proposal (s : R) (score info : R -> R) (x z : R) : R :=
@@ -97,7 +116,8 @@ Ltac c04_unfold :=
        lp_gauss sc_gauss in_gauss lp_quartic sc_quartic in_quartic
        lp_loggamma sc_loggamma in_loggamma
        sumsq lp_lm sc_lm_mu in_lm_mu sc_lm_theta in_lm_theta lp_pair
-       sc_pair_a in_pair_a sc_pair_b in_pair_b rw_proposal iwls_proposal];
+       sc_pair_a in_pair_a sc_pair_b in_pair_b rw_proposal iwls_proposal
+       sigm lp_hier sc_hier_t in_hier_t sc_hier_u in_hier_u ig_logkernel];
   rewrite ?rmin_as_abs.
 
 Ltac c04_solve := c04_unfold; interval with (i_prec 64).
